@@ -793,3 +793,57 @@ func (i *interpreter) symFloatCmp(op token.Token, f *symFloat, other value, flip
 	name := fmt.Sprintf("uf_fcmp_%d_%s_%v_%v", f.id, sanitize(op.String()), flipped, sanitize(fmt.Sprint(other)))
 	return i.boolVal(i.tt.Var(name, 0))
 }
+
+// ropeLen: the length of a formatted message; %d of a symbolic integer forks
+// over its number of decimal characters (sign and magnitude class).
+func (i *interpreter) ropeLen(r *Rope) int {
+	n := 0
+	for _, p := range r.parts {
+		switch {
+		case p.verb == "" && p.raw != nil:
+			n += len(p.raw)
+		case p.verb == "":
+			n += len(p.lit)
+		case p.verb == "%d":
+			s, ok := p.arg.(*Sym)
+			if !ok {
+				panic(unsupported{"len of a formatted message: %d of non-integer"})
+			}
+			n += i.decimalLen(s)
+		default:
+			panic(unsupported{"len of a formatted message with a " + p.verb + " operand"})
+		}
+	}
+	return n
+}
+
+func (i *interpreter) decimalLen(s *Sym) int {
+	tt := i.tt
+	w, signed := kindWidth(s.k)
+	t := s.t
+	extra := 0
+	if signed {
+		if i.decide(tt.Bin(OpSlt, t, tt.Const(w, 0))) {
+			extra = 1
+			// magnitude of the most negative value has the same digit count as max+1
+			if i.decide(tt.Eq(t, tt.Const(w, uint64(1)<<uint(w-1)))) {
+				return 1 + len(fmt.Sprint(uint64(1)<<uint(w-1)))
+			}
+			t = tt.Un(OpNeg, t)
+		}
+	}
+	lim := uint64(10)
+	for d := 1; d < 20; d++ {
+		if lim > mask(w) {
+			return extra + d
+		}
+		if i.decide(tt.Bin(OpUlt, t, tt.Const(w, lim))) {
+			return extra + d
+		}
+		if lim > ^uint64(0)/10 {
+			return extra + d + 1
+		}
+		lim *= 10
+	}
+	return extra + 20
+}
